@@ -408,3 +408,29 @@ func TestC04_S1Burst(t *testing.T) {
 }
 func TestC05_S1Burst(t *testing.T) { s1Main(t, burstSpec("C05", "S1Burst", vh.FBook, false)) }
 func TestC06_S1Burst(t *testing.T) { s1Main(t, burstSpec("C06", "S1Burst", vh.FEvents, false)) }
+
+// ---- C17, cache-level clause: dropping reads never changes what an operation returns ---------------------
+
+func TestC17_S1ReadBursts(t *testing.T) {
+	s1Main(t, s1Spec{
+		Prop: "C17", Test: "S1ReadBursts",
+		Rule: "model-conformance scripts on bounded and/or expiring caches with a queueing executor in which 'readburst' actions issue 17-120 reads between two drains (the 16-slot read buffer saturates and further reads are dropped), mixed with writes, clock advances, RunTasks and CleanUp; " +
+			"every read of a burst and the whole key space after every step are compared with the reference model (dropped reads may only influence which entry is evicted later, which the model reconciles through the reported events); non-trivial = a burst that left the read buffer full",
+		Profile: &vh.Profile{Name: "c17", Executors: []int{vh.ExecDeferred, vh.ExecInline}, MinLen: 1, MaxLen: 60, MaxKeys: 8,
+			Ops: map[string]int{"readburst": 10, "set": 10, "getifpresent": 4, "getentry": 2, "invalidate": 2, "compute": 3, "advance": 4, "runtasks": 4, "cleanup": 2, "iter": 1, "setifabsent": 2}},
+		Facets:       vh.FRet | vh.FContents | vh.FVis | vh.FBook | vh.FPanic,
+		FinalQuiesce: true,
+		NonTrivial:   func(r *vh.Runner) bool { return r.St.ReadBufferSaturated > 0 },
+		Classes: func(r *vh.Runner) []string {
+			var c []string
+			if r.St.ReadBursts > 0 {
+				c = append(c, "read-burst")
+			}
+			if r.St.ReadBufferSaturated > 0 {
+				c = append(c, "read-buffer-full")
+			}
+			return c
+		},
+		Assumptions: commonAssumptions,
+	})
+}
